@@ -314,8 +314,10 @@ class Parser:
         self.add_line_to_statement()
 
         if (final_line or self.new_statement) and self.statement:
-            # end of sql operation, remove ; from end of line
-            self.statement = self.statement[:-1]
+            # end of sql operation, remove ; from end of line (a statement that is
+            # ended by the start of the next one has none)
+            if self.statement.endswith(";"):
+                self.statement = self.statement[:-1]
         elif last_line and not self.skip:
             # continue combine lines in one massive
             return
